@@ -1,5 +1,13 @@
 (* C08 — lookup by flight identifier returns exactly the trajectory added with it.
    Property theorems only. *)
+(* Scope of the model these theorems are about (shared by C07 C08 C09 C10):
+   - ONE live TrajectoryStore handle at a time; a merge runs with no handle open;
+   - the refinement theorem is about worlds whose file system holds store files only ([Inv]: no merged directory
+     elsewhere); merged directories are covered by the merge / merged-read theorems (C09, C10);
+   - a fault is an exception raised IN FRONT of a file-system call (the call has no effect); os.rename is atomic and
+     stays on one device; a crash inside rename / json.dump is not modelled;
+   - payloads are reduced to a tag, a flight id, the identity of the field sets and a size; the contents of the other
+     fields are C03's subject. *)
 From Coq Require Import ZArith List Bool.
 From AV Require Import model.Store_Model proofs.Store_Proofs proofs.Store_Refine
                        proofs.Store_MergeProofs proofs.Store_MergedReads proofs.Store_Corollaries.
